@@ -29,5 +29,17 @@ func Specs() map[string]*PropSpec {
 		Outside:     []string{"more periods than the structural bound", "times beyond 2^61 s (int64 overflow of start+sum of lengths)", "more than 2 denominations"},
 		Assumptions: []string{"theory summaries of sdk.Coins / math.Int (validated per run by replayed traces)", "period amounts are valid-or-empty Coins (non-negative)"},
 	}
+	fk := func(fn string, kv ...string) Inst { return Inst{Pkg: "x/feemarket/keeper", Fn: fn, Params: pm(kv...)} }
+	c17 := []Inst{fk("VerifC17_Formula"), fk("VerifC17_Bounds"), fk("VerifC17_Monotone"), fk("VerifC17_BeginBlock"), fk("VerifC17_EndBlock")}
+	m["C17"] = &PropSpec{
+		ID: "C17", Pkgs: []string{"./x/feemarket/keeper"}, Quick: c17, Thorough: c17,
+		Bounds: map[string]string{
+			"quick":    "one block, fully symbolic: parent base fee in [0,2^128), gas figure any uint64, MaxGas nil / -1 / [0,2^62], elasticity and denominator any uint32 >= 1, min gas price any Dec in [0,10^42], height and enable height in [0,2^40]; monotonicity over two gas figures; EndBlock: gasWanted < 2^63, gasUsed <= limit <= 2^62, multiplier in [0,1]",
+			"thorough": "same (the single-step query is already unbounded in the value dimension)",
+		},
+		Outside: []string{"block gas limit below the elasticity multiplier (target 0: the real code divides by zero once any gas is wanted)", "elasticity multiplier 0 (not rejected by Params.Validate; observation in DESIGN.md)", "base fee >= 2^128", "block sequences longer than one step (monotone/bounds are single-step facts; base>=min is re-established by every step, checked in Bounds)", "gasWanted >= 2^63 (EndBlock returns early)"},
+		Assumptions: []string{"Context.KVStore replaced by the harness multistore (gas metering wrapper skipped)", "codec modelled as typed blobs (Marshal/Unmarshal inverse pair)", "big.Int / math.Int / LegacyDec theory summaries"},
+		Stubs:       []string{"zzverif.MemStore (in-memory KVStore)", "zzverif blob codec"},
+	}
 	return m
 }
